@@ -270,7 +270,9 @@ func (r *Run) Violation(kind, sig, caseID string, witness any) {
 	defer r.mu.Unlock()
 	k := kind + "\x00" + sig
 	r.vcount[k]++
-	if r.vfiles[k] >= 3 || r.vfiles["\x01"+kind] >= 40 {
+	// the first witness of every distinct (kind, signature) is always kept (up to 2000 per kind), so that a new
+	// signature is never crowded out by frequent ones; further witnesses of a signature only while the kind has few files
+	if r.vfiles[k] >= 3 || (r.vfiles[k] >= 1 && r.vfiles["\x01"+kind] >= 40) || r.vfiles["\x01"+kind] >= 2000 {
 		return
 	}
 	r.vfiles[k]++
